@@ -12,6 +12,13 @@ import (
 type executionContext struct {
 	commander  *Commander
 	parameters Parameters
+	// onReturn holds what must stay in place until the log is persisted (account locks, reservations):
+	// it runs when run() returns, i.e. after the wait for persistence
+	onReturn []func()
+}
+
+func (e *executionContext) deferUntilPersisted(f func()) {
+	e.onReturn = append(e.onReturn, f)
 }
 
 func (e *executionContext) AppendLog(ctx context.Context, log *ledger.Log) (*ledger.ChainedLog, chan struct{}, error) {
@@ -47,6 +54,11 @@ func (e *executionContext) run(ctx context.Context, executor func(e *executionCo
 			return nil, err
 		}
 	}
+	defer func() {
+		for i := len(e.onReturn) - 1; i >= 0; i-- {
+			e.onReturn[i]()
+		}
+	}()
 	chainedLog, done, err := executor(e)
 	if err != nil {
 		return nil, err
